@@ -3,6 +3,8 @@ from ..comp import serial as S
 
 ID = 'C11'
 THEOREMS = S.THEOREMS
+from ..comp import params as _PA
+THEOREMS = THEOREMS + _PA.THEOREMS_C11_PARAMS
 COMPONENTS = ['schema table REGENERATED from /repo/eaopack/*.py by harness/schema_gen.py on every run (translator self-check: stored keys and signatures of real objects vs the table)', 'value codec on real datetimes/arrays/indices']
 RULE = ('every (de)serialisable class x parameter forms (scalars, interval dicts with naive/aware datetimes, numpy arrays, DatetimeIndex, price keys; all options) before and after a set-up call: save, load, re-save, compare problems for 2 grids/prices exactly; portfolios with naive and zone-aware own grids; '
         'stream dst: portfolio-owned grids on zones with daylight saving time (incl. southern hemisphere and a 30 min shift) whose start and/or end are zone-aware time stamps (Timestamp, datetime, zoneinfo datetime, fixed UTC offset) at the switches - first and second occurrence of the repeated span, its borders, the neighbours of the gap - with and without the timezone keyword, steps 15min/30min/h/2h/d; on grids given by zoneinfo datetimes the asset dates are zoneinfo datetimes too (known finding F-11f: violations of that cause carry the fact kind=zoneinfo_dates); the grid oracle compares the time points as instants AND as local times with UTC offset, the zone of the points AND the tz attribute, start/end, T, dt, Dt, unit, freq; '
@@ -27,12 +29,21 @@ def pre_build():
 
 def scenarios(seed, tier):
     yield from S.scenarios(seed, tier)
+    # io.get_params_tree / get_param / set_param against their model (comp/params.py)
+    from ..comp import params as PA
+    for cid, c in PA.scenarios(seed, tier):
+        yield 'pa_' + str(cid), {'_stream': 'params', 'case': c}
     # portfolios through run_from_json (string / file / grid stored in the JSON) and re-created by set_param: comp/entry.py
     from ..comp import entry as EN
     yield from EN.stream(seed, 60 if tier == 'quick' else 400, ('json', 'param'), tmax=10 if tier == 'quick' else 16)
 
 
 def run_case(case, drv):
+    if isinstance(case, dict) and case.get('_stream') == 'params':
+        from ..comp import params as PA
+        r = PA.run_case(case['case'], drv)
+        r['features'] = ['stream:params'] + list(r.get('features', []))
+        return r
     if isinstance(case, dict) and case.get('_stream') == 'entry':
         from ..comp import entry as EN
         return EN.run_stream_case(case, ('entry_point',))
